@@ -360,6 +360,21 @@ fn c11_scenario_x(name: &'static str, progs: Vec<Vec<COp>>, abandon: bool) -> Sc
                 }
             }
         }
+        // "after DeleteSubscription returns, the subscription is absent from its topic's subscription list": every
+        // ListTopicSubscriptions invoked after a successful DeleteSubscription returned (the name is not created again
+        // in these programs before it) must not contain it
+        for g in calls.iter().filter(|c| matches!(c.op, COp::ListTopicSubs(_))) {
+            if let R::Names(Ok(names)) = &g.result {
+                for d in calls.iter().filter(|d| matches!(d.op, COp::DeleteSub(_)) && d.result.is_ok() && d.ret_step.map(|r| r <= g.invoke_step).unwrap_or(false)) {
+                    if let COp::DeleteSub(sname) = &d.op {
+                        let recreated = calls.iter().any(|c| matches!(&c.op, COp::CreateSub(x, _) if x == sname));
+                        if !recreated && names.iter().any(|n| n == sname) {
+                            return ScenarioOut::viol(format!("{}/listed-after-delete-subscription-returned", name), format!("ListTopicSubscriptions invoked after DeleteSubscription({}) had returned OK still lists it: {}", sname, key));
+                        }
+                    }
+                }
+            }
+        }
         // after DeleteTopic returned, its subscriptions still exist, report the topic as deleted and keep serving what they hold
         let topic_deleted = calls.iter().any(|c| matches!(c.op, COp::DeleteTopic(_)) && c.result.is_ok());
         let topic_recreated = calls.iter().any(|c| matches!(c.op, COp::CreateTopic(_)) && c.result.is_ok());
@@ -397,6 +412,7 @@ pub fn c11_sched(thorough: bool) -> Vec<Unit> {
         ("delete-sub‖create-sub-same-name", vec![vec![DeleteSub(S0)], vec![CreateSub(S0, T0), CreateSub(S0, T0)], vec![Publish(T0, 1)]]),
         ("delete-topic;create-topic‖create-sub", vec![vec![DeleteTopic(T0), CreateTopic(T0)], vec![CreateSub(S2, T0)], vec![Publish(T0, 1)]]),
         ("delete-sub‖delete-topic", vec![vec![DeleteSub(S0)], vec![DeleteTopic(T0)], vec![ListTopicSubs(T0)]]),
+        ("delete-sub;list‖publish", vec![vec![DeleteSub(S0), ListTopicSubs(T0)], vec![Publish(T0, 1)], vec![ListTopicSubs(T0)]]),
         ("delete-topic;get-sub‖publish", vec![vec![DeleteTopic(T0), GetSub(S0), GetSub(S1)], vec![Publish(T0, 1)], vec![Publish(T0, 2)]]),
     ];
     let mut v: Vec<Unit> = progs.into_iter().map(|(n, p)| explore_unit(format!("sched/{}", n), format!("{:?}; afterwards ListTopicSubscriptions of every live topic = the existing subscriptions reporting it, a probe publish reaches exactly those, deleted things are gone, subscriptions of a deleted topic keep serving", p), Bounds::new(d), ExecCfg::default(), c11_scenario(n, p))).collect();
